@@ -458,6 +458,76 @@ func C16(c *Ctx) {
 		r.Floor("R16.8", "status changes in entries that cascade to the services", n8, 2)
 	}
 
+	// ---- R16.9
+	r.Rule("R16.9", "services resume only with their appchain: an UnPauseChainService cross-invoke of the appchain manager lies on the approved branch of Manage (approved activate / update end in available by the FSM table), or behind a comparison of the status the appchain returns to (lastStatus / a loaded status) with available or freezing - the statuses in which an appchain's services run; an unconditional un-pause where the appchain goes back to lastStatus (rejected logout, master-rule update of a frozen chain) lets a frozen appchain interchange.")
+	{
+		m := c.Contracts()
+		edgeOf := map[*ssa.Call]*core.Edge{}
+		for _, e := range m.bvm.Edges {
+			edgeOf[e.Site] = e
+		}
+		manage := c.fn("R16.9", "internal/executor/contracts.(*AppchainManager).Manage")
+		appr := constOfPkg(c, "APPROVED")
+		// functions that run only on the approved branch of Manage
+		approvedOnly := map[*ssa.Function]bool{}
+		var notApproved *core.ReachSet
+		if manage != nil {
+			var resultP *ssa.Parameter
+			for _, p := range manage.Params {
+				if p.Name() == "proposalResult" {
+					resultP = p
+				}
+			}
+			apprEdges := condEdges(manage, func(f core.Fact, ifi *ssa.If) (bool, int) {
+				if f.Kind == core.FEqConst && f.Const == appr && resultP != nil && core.Strip(f.Subject) == ssa.Value(resultP) {
+					return true, holdsEdge(f)
+				}
+				return false, 0
+			})
+			notApproved = core.Reach([]core.Point{core.EntryOf(manage)}, nil, core.CutOf(apprEdges))
+			for _, call := range core.Calls(manage) {
+				if g := core.StaticCallee(call); g != nil && !notApproved.Has(call) && core.PkgOf(g) == core.PkgOf(manage) {
+					approvedOnly[g] = true
+				}
+			}
+			for _, fn := range m.funcs {
+				for _, call := range core.Calls(fn) {
+					if g := core.StaticCallee(call); g != nil && approvedOnly[g] && (fn != manage || notApproved.Has(call)) {
+						delete(approvedOnly, g) // also called from elsewhere
+					}
+				}
+			}
+		}
+		n9 := 0
+		for _, fn := range m.funcs {
+			if len(fn.Blocks) == 0 || !strings.Contains(core.FnName(fn), "AppchainManager)") {
+				continue
+			}
+			for _, call := range core.Calls(fn) {
+				cl, ok := call.(*ssa.Call)
+				if !ok || edgeOf[cl] == nil || edgeOf[cl].Method != "UnPauseChainService" {
+					continue
+				}
+				n9++
+				key := fmt.Sprintf("%s: UnPauseChainService #%d only when the appchain's services run", shortFn(fn), n9)
+				if fn == manage && notApproved != nil && !notApproved.Has(cl) || approvedOnly[fn] {
+					r.OK("R16.9", key, c.P.Pos(cl.Pos()), "on the approved branch of Manage: the appchain ends in available (FSM table, R16.2)")
+					continue
+				}
+				runs := condEdges(fn, func(f core.Fact, ifi *ssa.If) (bool, int) {
+					if f.Kind == core.FEqConst && (f.Const == "available" || f.Const == "freezing") {
+						return true, holdsEdge(f)
+					}
+					return false, 0
+				})
+				rs := core.Reach([]core.Point{core.EntryOf(fn)}, nil, core.CutOf(runs))
+				r.Check(runs.Len() > 0 && !rs.Has(cl), "R16.9", key, c.P.Pos(cl.Pos()), "behind a comparison of the restored status with available / freezing",
+					"the chain's services are un-paused although the appchain returns to whatever status it had before (lastStatus) - for a frozen, updating or activating appchain that status keeps the services paused: after a rejected logout (or an un-pause of a frozen chain) the frozen appchain's services are available again and interchange")
+			}
+		}
+		r.Floor("R16.9", "UnPauseChainService cross-invokes of the appchain manager", n9, 3)
+	}
+
 	// ---- R16.6
 	r.Rule("R16.6", "no stale write-back: a governance record loaded with QueryById is not written back (Register/Update/SetObject) after a call that changes the stored status of the same id in between.")
 	c.staleWriteBack()
